@@ -23,6 +23,7 @@ import (
 	sigyaml "sigs.k8s.io/yaml"
 
 	pkgv1 "github.com/crossplane/crossplane/apis/pkg/v1"
+	"github.com/crossplane/crossplane/internal/simsync"
 	"github.com/crossplane/crossplane/internal/xpkg"
 
 	"github.com/crossplane/crossplane/verifsim/kit"
@@ -139,6 +140,9 @@ func Run(s *sim.Sim, res *runner.Result, mode Mode) {
 		res.Trouble = err.Error()
 		return
 	}
+	// scheduling points the build-time overlay inserted into the code under test
+	simsync.Hook = kit.NewLockHook(s, func() *sim.Proc { return w.Proc })
+	defer func() { simsync.Hook = nil }()
 	r := &run{w: w, mode: mode, taskOf: map[int]string{}, foreign: map[string]bool{}, unsigned: map[string]bool{}}
 	nPkg := 1 + t.Next(2)
 	for i := 0; i < nPkg; i++ {
